@@ -161,6 +161,9 @@ def run(cx):
         "l := []\nx := 1\nl.append(x = 2)\nl", "f := func(a) {\nreturn a\n}\nf(for i := range 2 {\n})\n1", "f := func(a) {\nreturn a\n}\nf(import ma)\n1",
         "x := 1\nf := func(a) {\nreturn a\n}\nx | f(x = 2)", "x := 1\nf := func(a, b) {\nreturn a\n}\nf(1, x += 2)",
         "x := 1\nf := func(a) {\nreturn a\n}\ngo f(x = 2)\n1", "m := {}\nf := func(a) {\nreturn a\n}\nf(m.a = 1)",
+        # a call whose result is a Go nil (a hoisted function read before its definition ran): still ONE value
+        "func g() {\nreturn h\n}\nn := 0\nfor i := range 3 {\ng()\nn++\n}\nfunc h() {\nreturn 1\n}\nn",
+        "func g() {\nreturn h\n}\nx := [1, g(), 3]\nfunc h() {\nreturn 1\n}\nlen(x)",
     ]
     stm_cases = [{"id": 5000000 + k_, "src": t} for k_, t in enumerate(stm_srcs)]
     stm_path = cx.path("stm.cases.ndjson")
